@@ -210,7 +210,7 @@ func (cc compCase) build(p placement) (*world, expectation) {
 	md := map[string]any{"name": tk.Name}
 	if referenced || cc.LooksComposed {
 		comp := xrName
-		if !referenced || p == foreign {
+		if !referenced || p.isForeign() {
 			comp = otherXRName
 		}
 		md["annotations"] = map[string]any{annResName: resName}
@@ -221,7 +221,7 @@ func (cc compCase) build(p placement) (*world, expectation) {
 	mustCreate(env.Sim, o)
 	for i := 0; i < cc.Bystanders; i++ {
 		b := verifsim.Obj{"apiVersion": "example.org/v1", "kind": "KindA", "metadata": map[string]any{"name": fmt.Sprintf("bystander-%d", i), "annotations": map[string]any{annResName: "r0"}}, "spec": map[string]any{"forProvider": map[string]any{"v": "theirs"}}}
-		setController(b, foreign, nil, refTo(other, true))
+		setController(b, []placement{foreign, foreignOwnPlain, foreignExtraPlain}[i%3], refTo(xr, true), refTo(other, true))
 		mustCreate(env.Sim, b)
 	}
 	if cc.Variant == "name-generated" {
